@@ -7,6 +7,8 @@ import PV.C09.LexShift   -- lexer model: PV.C09.lex_shift, lex_shift_of_fit (the
 import PV.C09.Pipeline   -- text → answer on the models (lexer model, filter, token conversion, PV.Prog.parseProgram)
 import PV.C09.RShift     -- the ranged expression parser PV.C02.parseR commutes with a shift of the span table
 import PV.C09.RShiftTree -- … and what the shift is on the generic ranged tree PV.C02.Tree
+import PV.C09.RProgShift -- the ranged PROGRAM parser PV.C02.parseRProgram commutes with a shift of the span table
+import PV.C09.RProgShiftTree -- … and what that shift is on the generic ranged tree
 import PV.Prog.Thm       -- PV.Prog.parseProgram_layout_free
 /-
   C09 — property theorems: "start offsets only translate positions; all entry points agree".
@@ -24,7 +26,11 @@ import PV.Prog.Thm       -- PV.Prog.parseProgram_layout_free
   reference parser for programs `PV.Prog.parseProgram` and the ranged expression parser `PV.C02.parseR` in place of the
   parameters — `lex_parse_shift_model` (the range-erased answer at start offset `k` is the answer at 0, a lexical error
   offset moved by `k`), `parseR_shift` / `lex_parseR_shift_model` (the RANGED tree of an expression lexed at offset `k` is
-  the ranged tree at 0 with every range moved by `k`: the first sentence of the property, for the expression fragment).
+  the ranged tree at 0 with every range moved by `k`: the first sentence of the property, for the expression fragment),
+  and `parseRProgram_shift` / `lex_parseRProgram_shift_model` (section 5: the same for WHOLE PROGRAMS in every mode, on the
+  ranged program parser `PV.C02.parseRProgram`: every range of every statement, pattern, parameter, … and of the `Mod*`
+  node moves by `k`, a lexical error's offset moves by `k`; the token-less text, whose `Mod*` node stays at `0..0`, is
+  proved to be the one exception: `parseRProgram_shift_fails`, `lex_parseRProgram_tokenless_model`).
 -/
 namespace PV.C09
 open Spec
@@ -595,5 +601,216 @@ example : parseRText sampleConvE ⟨false, asciiUp⟩ .expression 400 callSrc =
   rw [lex_parseR_shift_model sampleConvE _ .expression 400 callSrc
     (fun o h => by rw [callSrc_lex0] at h; cases h; decide), callSrc_tree0]
   rfl
+
+/-! ## 5. Start offsets only translate positions — whole programs, every range
+
+  The first sentence of the property at model level for whole programs: the parser is the RANGED program parser
+  `PV.C02.parseRProgram` (lean/PV/C02/RProg.lean; its tie to the real parser under `all-nodes-with-ranges` is C02's
+  `ranged-program-model-*` correspondence, the lexer model's tie to lexer.rs is C05's).  `parseRProgram_shift`
+  (lean/PV/C09/RProgShift.lean, induction over its 47 functions in `RProgShift1..4.lean`) is composed with `lex_shift`. -/
+
+/-- what the ranged pipeline answers: as `PV.Pipeline.Answer`, the tree with the range of every node -/
+inductive RAnswer
+  /-- `Ok(tree)`, every node with its range (as under `all-nodes-with-ranges`) -/
+  | tree (m : PV.C02.RMod)
+  /-- the text lexes, the parser rejects the token stream (or a token has no conversion) -/
+  | rejected
+  /-- the token stream ends in its first lexical error: kind and byte offset -/
+  | lexError (kind : ErrKind) (offset : Nat)
+  /-- the lexer model ran out of fuel (never: `PV.C03.lex_parse_total_model`) -/
+  | lexOutOfFuel
+  /-- the Rust code would panic: a modelled `unwrap` fails or `location` overflows `u32` -/
+  | panic
+
+/-- a parser token with its byte span, as the ranged program parser takes it -/
+def stokToR (t : PV.Prog.STok) : PV.C02.RPTok := ⟨t.tok, t.start, t.stop⟩
+
+/-- the ranged parser applied to the result of the lexer (the parser input is `PV.Pipeline.parserInput`: trivia
+    filtered, every token converted by the position-blind `conv`) -/
+def ranswerOf (conv : Conv) (pmode : PV.Prog.Mode) : Option LexOut → RAnswer
+  | none => .panic
+  | some o =>
+    match o.fin with
+    | .eof =>
+      (match parserInput conv o.toks with
+       | some ts =>
+         (match PV.C02.parseRProgram pmode (ts.map stokToR) with
+          | some m => .tree m
+          | none => .rejected)
+       | none => .rejected)
+    | .err k _ b => .lexError k b
+    | .outOfFuel => .lexOutOfFuel
+
+/-- **text → ranged answer on the models**: `parse_starts_at(src, mode, start)` with `all-nodes-with-ranges`, in the lexer
+    configuration `cfg` -/
+def parseRProgText (conv : Conv) (cfg : Cfg) (mode : PV.Lexer.Mode) (start : Nat) (src : List Nat) : RAnswer :=
+  ranswerOf conv (progMode mode) (lex cfg mode start src)
+
+/-- forgetting the ranges -/
+def RAnswer.erase : RAnswer → Answer
+  | .tree m => .tree m.erase
+  | .rejected => .rejected
+  | .lexError k b => .lexError k b
+  | .lexOutOfFuel => .lexOutOfFuel
+  | .panic => .panic
+
+theorem map_tok_stokToR (ts : List PV.Prog.STok) : (ts.map stokToR).map (·.tok) = PV.Prog.eraseSpans ts := by
+  simp [stokToR, PV.Prog.eraseSpans, Function.comp_def]
+
+/-- the ranged pipeline is the pipeline of C03 / C10 / section 4 plus ranges: erasing them gives `PV.Pipeline.parseText` -/
+theorem parseRProgText_erase (conv : Conv) (cfg : Cfg) (mode : PV.Lexer.Mode) (start : Nat) (src : List Nat) :
+    (parseRProgText conv cfg mode start src).erase = parseText conv cfg mode start src := by
+  unfold parseRProgText parseText answerOf answerOfFuel ranswerOf
+  cases lex cfg mode start src with
+  | none => rfl
+  | some o =>
+    simp only
+    cases o.fin with
+    | eof =>
+      simp only
+      cases parserInput conv o.toks with
+      | none => rfl
+      | some ts =>
+        simp only [Nat.add_zero]
+        have e := PV.C02.parseRProgram_erase (progMode mode) (ts.map stokToR)
+        rw [map_tok_stokToR] at e
+        unfold PV.Prog.parseProgram at e
+        rw [← e]
+        cases PV.C02.parseRProgram (progMode mode) (ts.map stokToR) <;> rfl
+    | err kd c b => rfl
+    | outOfFuel => rfl
+
+/-- move every position of a ranged answer by `k`: every range of the tree, the offset of a lexical error -/
+def shiftRAnswer (k : Nat) : RAnswer → RAnswer
+  | .tree m => .tree (shiftRMod k m)
+  | .lexError kind off => .lexError kind (off + k)
+  | a => a
+
+theorem map_stokToR_shift (k : Nat) (ts : List PV.Prog.STok) :
+    (ts.map (shiftSTok k)).map stokToR = (ts.map stokToR).map (shiftRPTok k) := by
+  simp [stokToR, shiftSTok, shiftRPTok, Function.comp_def]
+
+/-- the ranged parser's answer on a translated token stream with at least one (non-trivia) token -/
+theorem ranswerOf_shift (conv : Conv) (pmode : PV.Prog.Mode) (k : Nat) (o : LexOut)
+    (htok : o.fin = .eof → Pipeline.filterTrivia o.toks ≠ []) :
+    ranswerOf conv pmode (some (shiftOut k o)) = shiftRAnswer k (ranswerOf conv pmode (some o)) := by
+  unfold ranswerOf
+  cases hf : o.fin with
+  | eof =>
+    have hf' : (shiftOut k o).fin = .eof := by simp [shiftOut, shiftEnd, hf]
+    simp only [hf', hf]
+    simp only [shiftOut, parserInput_shift]
+    cases hp : parserInput conv o.toks with
+    | none => rfl
+    | some ts =>
+      have hne : ts ≠ [] := by
+        intro e
+        subst e
+        have := htok hf
+        unfold parserInput at hp
+        cases hft : Pipeline.filterTrivia o.toks with
+        | nil => exact this hft
+        | cons t r =>
+          rw [hft] at hp
+          simp only [convAll] at hp
+          split at hp <;> cases hp
+      simp only [Option.map_some]
+      rw [map_stokToR_shift, parseRProgram_shift k pmode _ (by simpa using hne)]
+      cases PV.C02.parseRProgram pmode (ts.map stokToR) <;> rfl
+  | outOfFuel => simp [shiftOut, shiftEnd, hf, shiftRAnswer]
+  | err kd c b => simp [shiftOut, shiftEnd, hf, shiftRAnswer]
+
+/-- **Parsing a text at start offset `k` gives exactly the result of parsing it at offset 0 with every range and every
+    error offset moved by `k`** — the first sentence of the property, on the models, for WHOLE PROGRAMS in every mode:
+    for every token conversion, lexer configuration, mode and source that has at least one (non-trivia) token, the ranged
+    tree at offset `k` is the ranged tree at offset 0 with every range of every node moved by `k` and nothing else changed
+    (`erase_shiftRMod`, `toTree_shiftRMod`), a rejection stays a rejection, a lexical error keeps its kind and its offset
+    moves by `k`.  Composition of `lex_shift` with `parseRProgram_shift`.  `hfit`: nothing overflows `u32` (implied by
+    `k + utf8Len src ≤ u32::MAX`, the property's quantifier: `PV.C03.offset_arith_u32`).  `htok`: asked only of texts that
+    lex without error — token-less texts are the listed finding (next theorem). -/
+theorem lex_parseRProgram_shift_model (conv : Conv) (cfg : Cfg) (mode : PV.Lexer.Mode) (k : Nat) (src : List Nat)
+    (hfit : ∀ o, lex cfg mode 0 src = some o → o.reachedB + k ≤ u32Max)
+    (htok : ∀ o, lex cfg mode 0 src = some o → o.fin = .eof → Pipeline.filterTrivia o.toks ≠ []) :
+    parseRProgText conv cfg mode k src = shiftRAnswer k (parseRProgText conv cfg mode 0 src) := by
+  unfold parseRProgText
+  cases h0 : lex cfg mode 0 src with
+  | none => rw [lex_shift, h0]; rfl
+  | some o => rw [lex_shift_of_fit cfg mode k src o h0 (hfit o h0), ranswerOf_shift conv _ k o (htok o h0)]
+
+/-- **The token-less text is NOT translated** (the model reproduces the listed finding `start-marker-mod-range-no-token`):
+    a text that lexes to no token at all (empty, blank, comments only) gives the same answer at every start offset that
+    fits `u32` — with a position-blind conversion the parser is handed the same empty stream, and `Module` / `Interactive`
+    come out ranged `0..0`, not `k..k`. -/
+theorem lex_parseRProgram_tokenless_model (conv : Conv) (cfg : Cfg) (mode : PV.Lexer.Mode) (k : Nat) (src : List Nat)
+    (o : LexOut) (h0 : lex cfg mode 0 src = some o) (hfit : o.reachedB + k ≤ u32Max) (heof : o.fin = .eof)
+    (hno : Pipeline.filterTrivia o.toks = []) :
+    parseRProgText conv cfg mode k src = parseRProgText conv cfg mode 0 src := by
+  unfold parseRProgText
+  rw [lex_shift_of_fit cfg mode k src o h0 hfit, h0]
+  unfold ranswerOf
+  have hf' : (shiftOut k o).fin = .eof := by simp [shiftOut, shiftEnd, heof]
+  simp only [hf', heof]
+  have e1 : parserInput conv (shiftOut k o).toks = some [] := by
+    simp [shiftOut, parserInput, pipe_filterTrivia_shift, hno, convAll]
+  have e2 : parserInput conv o.toks = some [] := by simp [parserInput, hno, convAll]
+  rw [e1, e2]
+
+/-- the empty text in module mode: `Module { range: 0..0 }` at offset 0 and at offset 100 -/
+example : parseRProgText sampleConv ⟨false, asciiUp⟩ .module 100 [] = .tree (.module (0, 0) []) ∧
+    parseRProgText sampleConv ⟨false, asciiUp⟩ .module 0 [] = .tree (.module (0, 0) []) := by
+  have h : lex ⟨false, asciiUp⟩ .module 0 [] = some ⟨[], .eof, 0⟩ := by decide +kernel
+  have h2 : parseRProgText sampleConv ⟨false, asciiUp⟩ .module 0 [] = .tree (.module (0, 0) []) := by
+    unfold parseRProgText; rw [h]; rfl
+  exact ⟨by rw [lex_parseRProgram_tokenless_model sampleConv _ .module 100 [] _ h (by decide) rfl rfl, h2], h2⟩
+
+/-- `x = (1,⏎ 2)⏎` at offset 0: `Module` 0..12, `Assign` 0..11, `Tuple` 4..11 … -/
+theorem shiftSrc_rtree0 : parseRProgText sampleConv ⟨false, asciiUp⟩ .module 0 shiftSrc =
+    .tree (.module (0, 12) [.assign (0, 11) [.name (0, 1) [120]]
+      (.tuple (4, 11) [.const (5, 6) (.int 1), .const (9, 10) (.int 2)])]) := by
+  unfold parseRProgText
+  rw [shiftSrc_lex0]
+  rfl
+
+/-- … and lexed at offset 400 every range is moved by 400 (the hypotheses of the theorem hold: 12 + 400 fits, the text has
+    tokens) -/
+example : parseRProgText sampleConv ⟨false, asciiUp⟩ .module 400 shiftSrc =
+    .tree (.module (400, 412) [.assign (400, 411) [.name (400, 401) [120]]
+      (.tuple (404, 411) [.const (405, 406) (.int 1), .const (409, 410) (.int 2)])]) := by
+  rw [lex_parseRProgram_shift_model sampleConv _ .module 400 shiftSrc
+    (fun o h => by rw [shiftSrc_lex0] at h; cases h; decide)
+    (fun o h _ => by rw [shiftSrc_lex0] at h; cases h; decide), shiftSrc_rtree0]
+  rfl
+
+/-- `x $` at offset 400: the lexical error of offset 0 (byte 3), moved by 400 -/
+example : parseRProgText sampleConv ⟨false, asciiUp⟩ .module 400 [120, 32, 36] = .lexError (.unrecognizedToken 36) 403 := by
+  have h : lex ⟨false, asciiUp⟩ .module 0 [120, 32, 36] = some
+      ⟨[⟨.name [120], 0, 1, 0, 1⟩], .err (.unrecognizedToken 36) 3 3, 3⟩ := by decide +kernel
+  rw [lex_parseRProgram_shift_model sampleConv _ .module 400 _ (fun o h' => by rw [h] at h'; cases h'; decide)
+    (fun o h' he => by rw [h] at h'; cases h'; cases he)]
+  unfold parseRProgText
+  rw [h]
+  rfl
+
+/-! ### entry points as views, on the ranged model -/
+
+/-- **Interactive mode is Module mode, ranges included**: the same body with the same ranges and the same range of the
+    `Mod*` node, for every fuel and every spanned token list.  (The third view — expression mode = the value of the
+    module's expression statement — is proved range-erased only, `PV.Prog.parse_expr_stmt_agree`: the two modes reach the
+    expression list with different fuel, and fuel-monotonicity of the RANGED parser is not proved; what
+    `parseRProgram_erase` transfers is the tree without ranges.) -/
+theorem interactive_module_agreeR (fuel : Nat) (toks : List PV.C02.RPTok) (rg : PV.C02.Rg) (b : List PV.C02.RStmt) :
+    PV.C02.parseRProgramFuel fuel .interactive toks = some (.interactive rg b) ↔
+      PV.C02.parseRProgramFuel fuel .module toks = some (.module rg b) := by
+  simp only [PV.C02.parseRProgramFuel, PV.C02.parseRTopT]
+  cases PV.C02.parseRProgramBody (PV.C02.pspanTab toks) fuel (toks.map fun t => t.tok.toTok) <;> simp
+
+/-- … with the driver's fuel -/
+theorem interactive_module_agreeR' (toks : List PV.C02.RPTok) (rg : PV.C02.Rg) (b : List PV.C02.RStmt) :
+    PV.C02.parseRProgram .interactive toks = some (.interactive rg b) ↔
+      PV.C02.parseRProgram .module toks = some (.module rg b) :=
+  interactive_module_agreeR _ toks rg b
+
+example : ((PV.C02.parseRProgram .interactive ifToks).map fun m => (m.range, (modBody m).map PV.C02.RStmt.range)) =
+    ((PV.C02.parseRProgram .module ifToks).map fun m => (m.range, (modBody m).map PV.C02.RStmt.range)) := by decide
 
 end PV.C09
